@@ -82,6 +82,14 @@ var (
 	decimalQty  = []string{"0.2", "3.3", "1.1", "-0.1", "259", "0.40", "13.6", "4.29", "1e2", "-7.5", "0.07"}
 )
 
+// boundaryLog x boundaryBook products have a 5 in the third decimal, so sums of an odd number of them
+// lie on a half-cent boundary of the two-decimal reports: the printed digit then depends on the last
+// bit of the float sum, i.e. on the order of the additions.
+var (
+	boundaryLog  = []string{"0.9", "1.7", "0.1", "0.3", "0.7", "1.1", "1.3"}
+	boundaryBook = []string{"0.05", "0.15", "0.25", "0.35", "0.45", "0.005", "0.015"}
+)
+
 func genQty(t *rapid.T, label string, exactOnly bool) string {
 	if exactOnly || rapid.IntRange(0, 3).Draw(t, label+"_kind") < 3 {
 		return rapid.SampledFrom(exactQty).Draw(t, label)
@@ -94,7 +102,8 @@ type BookOpts struct {
 	MaxRecipes int
 	Cycles     bool
 	ExactOnly  bool
-	DeepChain  int // if > 0, force a chain with this many references
+	DeepChain  int  // if > 0, force a chain with this many references
+	Boundary   bool // coefficients from boundaryBook
 }
 
 // genBook draws a recipe book. Recipes are created in a hidden topological
@@ -131,7 +140,11 @@ func genBook(t *rapid.T, o BookOpts) []Block {
 			default:
 				name = rapid.SampledFrom(elementPool).Draw(t, label+"_el")
 			}
-			book[i].Items = append(book[i].Items, Item{name, genQty(t, label+"_q", o.ExactOnly)})
+			q := genQty(t, label+"_q", o.ExactOnly)
+			if o.Boundary {
+				q = rapid.SampledFrom(boundaryBook).Draw(t, label+"_bq")
+			}
+			book[i].Items = append(book[i].Items, Item{name, q})
 		}
 		if rapid.IntRange(0, 5).Draw(t, fmt.Sprintf("r%d_note", i)) == 5 {
 			book[i].Notes = []string{"barcode: 000" + fmt.Sprint(i)}
@@ -169,6 +182,7 @@ type LogOpts struct {
 	ExactOnly bool
 	Sorted    bool
 	Base      time.Time // first day of the window (zero: baseDay)
+	Boundary  bool      // quantities from boundaryLog
 }
 
 // genLog draws a log: day blocks in any order, repeated dates, empty days,
@@ -210,7 +224,11 @@ func genLog(t *rapid.T, book []Block, o LogOpts) []Block {
 			default:
 				name = rapid.SampledFrom(elementPool).Draw(t, label+"_el")
 			}
-			days[i].Items = append(days[i].Items, Item{name, genQty(t, label+"_q", o.ExactOnly)})
+			q := genQty(t, label+"_q", o.ExactOnly)
+			if o.Boundary {
+				q = rapid.SampledFrom(boundaryLog).Draw(t, label+"_bq")
+			}
+			days[i].Items = append(days[i].Items, Item{name, q})
 		}
 		if rapid.IntRange(0, 5).Draw(t, fmt.Sprintf("d%d_note", i)) == 5 {
 			days[i].Notes = []string{"weight: 7" + fmt.Sprint(i), "felt fine"}
